@@ -162,6 +162,9 @@ func (m *shareModel) step(op OpSpec) []string {
 
 func genShareOps(g *Gen, connectable bool, clients int) []OpSpec {
 	n := g.Range(2, 10)
+	if g.Tier == "thorough" {
+		n = g.Range(2, 14)
+	}
 	var ops []OpSpec
 	nextSub, nextVal := 0, 1
 	live := map[int]int{}
